@@ -45,7 +45,8 @@ pub fn echo_mutations(objs: &[u8]) -> Vec<(String, Vec<u8>)> {
     for (hi, h) in hs.iter().enumerate() {
         for (oi, o) in h.objs.iter().enumerate() {
             // status codes
-            for st in [1u8, 2, 4, 5, 6, 7, 10, 126, 127] {
+            // every defined code, the undefined ones next to them, each single bit, and octets with the top bit set
+            for st in (1u8..=20).chain([32, 64, 126, 127, 128, 129, 130, 144, 146, 192, 254, 255]) {
                 let mut m = hs.clone();
                 let n = o.bytes.len();
                 m[hi].objs[oi].bytes[n - 1] = st;
